@@ -298,6 +298,8 @@ def build(r, layout, fname, opener, eol):
     if layout in ("md-link",) or fname.endswith((".md", ".markdown")) or fname.endswith((".yaml", ".py", ".toml")):
         indent = 0 if fname.endswith((".md", ".markdown", ".yaml", ".py")) else indent
     exps = []
+    if r.random() < 0.15:
+        b.raw("\ufeff")       # UTF-8 byte order mark: bytes of line 1 like any other
     if fname.endswith(".php"):
         b.line_text("<?php")
     if fname.endswith(".xml"):
